@@ -17,6 +17,7 @@ dead <i> <client> <N> <tmo 0|1> <answered K> <fault> <when> <cut>
    -> <i> outcomes <own|Err|HANG>,.. later <Err|own|HANG> sub <eof|open|->
 tmo <i> <client> <late|early|race>                   -> <i> first <Timeout|own|racy> next own
 cancel <i> <client> <prewrite|wait>                  -> <i> cancelled next own residue 0
+stall <i> <client> <fault>                           -> <i> small Err big Err
 ```
 -/
 namespace Repe.Driver.Mux
@@ -192,6 +193,14 @@ def runCancel (cfg : Cfg) (kind : String) : String :=
     let c0 := match (s.calls 0).pc with | .returned .cancelled => "cancelled" | _ => "bad"
     c0 ++ " next " ++ showTmo (s.calls 1) ++ " residue " ++ toString residue
 
+/-- A caller (7) is stalled inside its write when the failure is noticed; the small call (0) is in
+flight.  Both end with an error once the failure path has run. -/
+def runStall (cfg : Cfg) : String :=
+  let s := [Ev.alloc 0, .register 0, .write 0, .alloc 7, .register 7].foldl (step cfg) State.init
+  let s := failToEnd cfg (step cfg s .readErr) (cfg.failOrder.length + 6)
+  let s := [Ev.recv 0, .write 7, .cleanup 7, .recv 7].foldl (step cfg) s
+  "small " ++ showDead false (s.calls 0) ++ " big " ++ showDead false (s.calls 7)
+
 def stepLine (_ : Unit) (ws : List String) : Unit × String :=
   let bad (i : String) := ((), i ++ " bad-op")
   match ws with
@@ -213,6 +222,10 @@ def stepLine (_ : Unit) (ws : List String) : Unit × String :=
     match cfgOf (natOf client) with
     | none => bad i
     | some cfg => ((), i ++ " " ++ runTmo cfg kind)
+  | ["stall", i, client, _fault] =>
+    match cfgOf (natOf client) with
+    | none => bad i
+    | some cfg => ((), i ++ " " ++ runStall cfg)
   | ["cancel", i, client, kind] =>
     match cfgOf (natOf client) with
     | none => bad i
